@@ -244,6 +244,9 @@ def main():
                 if d:
                     nd += 1
                     if len(disagreements) < 50:
+                        if gs is not None:      # stateful suite: keep the whole history up to the disagreeing operation for the replay
+                            st = max(g for g in gs if g <= i)
+                            c.meta["history"] = lines[st:i + 1]
                         disagreements.append((s, c, h, m, d))
             o = s.oracle(c, h)
             if o:
@@ -310,7 +313,7 @@ def main():
         else:
             s, c, h, m, d = disagreements[0]
             violations.append(("correspondence:" + s.name, "implementation and model disagree (%d cases); first: %s" % (len(disagreements), d),
-                               {"no_failing_input": not P.get("model_is_oracle", False), "suite": s.name, "cfg": s.cfg, "line": c.line, "implementation": h, "model": m,
+                               {"no_failing_input": not P.get("model_is_oracle", False), "suite": s.name, "cfg": s.cfg, "line": c.meta.get("history", c.line), "implementation": h, "model": m,
                                 "broken": "correspondence between lean/AJ/Model and the implementation (suite %s)" % s.name,
                                 "theorems_no_longer_tied": theorems}))
     if proof_broken and not violations:
